@@ -941,7 +941,11 @@ static int c06_cmd (char *line)
               break;
             }
           if (!fired)
-            break;
+            {
+              if (getenv ("C06_FAULTLOG"))
+                vh_out ("note c06: %s: the error was injected at every instruction 1..%ld", buf, k - 1);
+              break;
+            }
         }
     }
   else if (!strcmp (t[0], "cleanup"))
